@@ -49,7 +49,8 @@ def case_strategy(draw):
     c["kw"] = dict(clear_cache_every_nbr_calc=10**6)
     c["first"] = draw(st.sampled_from(
         [None, "st_covd_udown4", "accelerationdown4", "theta", "sheardown4",
-         "omega2", "s_RicciS_u", "dtconserved"]))
+         "omega2", "s_RicciS_u", "dtconserved", "st_Gamma_udd4",
+         "st_Gamma_udd4", "dtgammaup3"]))
     return c
 
 
@@ -187,7 +188,8 @@ def generic_cases():
     out = []
     for o, Lam, form, first in ((4, 0.2, "components", "st_covd_udown4"),
                                 (2, 0.0, "tensors", "accelerationdown4"),
-                                (6, 0.0, "components", "sheardown4")):
+                                (6, 0.0, "components", "sheardown4"),
+                                (4, 0.0, "components", "st_Gamma_udd4")):
         out.append(dict(cases.generic_W(o), Lambda=Lam, form=form,
                         matter="Tdown4", vacuum=False, kw=KW, first=first))
     out.append(dict(cases.generic_KS(4), Lambda=0.0, form="components",
